@@ -6,7 +6,11 @@ EXTENDS FzfShell, Json
 
 CONSTANTS MaxTokens,    \* template length in tokens
           NItems,       \* lines on the list (<= 3)
-          WorldIds      \* which of the line sets below are used
+          WorldIds,     \* which of the line sets below are used
+          TokenIds,     \* which entries of the token menu the template is written with
+          QueryIds,     \* which entries of the query menu can be typed
+          DelimIds,     \* which entries of the delimiter menu fzf can have been started with (--delimiter)
+          SepSet        \* print separators fzf can have been started with ("LF"; "NUL" = --print0)
 
 (* line texts and input ordinals *)
 Worlds == <<
@@ -15,8 +19,22 @@ Worlds == <<
     [text |-> <<"SQ">>, idx |-> 12]>>,
   <<[text |-> <<>>, idx |-> 3],
     [text |-> <<"SQ", "SQ", "SP", "BT", "a", "BT">>, idx |-> 10],
-    [text |-> <<"LB", "RB", "SP", "STAR", "SP", "TILDE", "SEMI", "a", "BSL">>, idx |-> 104]>> >>
-Queries == {<<>>, <<"a", "SP", "SQ", "DQ">>, <<"SP", "DOL", "a", "SP", "SP", "BSL", "SQ", "LF">>}
+    [text |-> <<"LB", "RB", "SP", "STAR", "SP", "TILDE", "SEMI", "a", "BSL">>, idx |-> 104]>>,
+  (* delimiters and files: several fields under every delimiter of the menu; a line whose second field is a line     *)
+  (* feed (a --read0 line: the record ends with the separator character); a line with one field; the empty line      *)
+  <<[text |-> <<"a", "COLON", "SQ", "SP", "a", "COLON", "COLON", "DOL", "SEMI", "SP">>, idx |-> 0],
+    [text |-> <<"a", "SP", "COLON", "LF">>, idx |-> 5],
+    [text |-> <<>>, idx |-> 11]>>,
+  <<[text |-> <<"a", "a">>, idx |-> 2],
+    [text |-> <<"COLON", "a", "SEMI", "SP", "SP", "a", "LF">>, idx |-> 20],
+    [text |-> <<"SQ", "COLON", "COLON">>, idx |-> 9]>> >>
+QueryMenu == << <<>>, <<"a", "SP", "SQ", "DQ">>, <<"SP", "DOL", "a", "SP", "SP", "BSL", "SQ", "LF">>,
+                (* several words and the delimiters inside them *)
+                <<"a", "COLON", "SQ", "SP", "a", "SEMI", "a", "SP", "SP", "COLON", "COLON", "a">>,
+                <<"a", "a", "COLON", "a">> >>
+Queries == {QueryMenu[i] : i \in QueryIds}
+DelimMenu == << AwkDelim, StrDelim(<<"COLON">>), StrDelim(<<"COLON", "COLON">>), StrDelim(<<"SP">>),
+                ClsDelim(<<"SEMI", "COLON">>) >>
 
 P(body) == <<"LB">> \o body \o <<"RB">>
 Tokens == <<
@@ -29,29 +47,39 @@ Tokens == <<
   P(<<"q", "COLON", "1">>), P(<<"q", "COLON", "s", "2", "DOT", "DOT">>),                \* {q:1} {q:s2..}
   <<"BSL">> \o P(<<"PLUS", "f">>),                                                      \* \{+f}
   P(<<"0">>), P(<<"PLUS", "s", "1", "DOT">>),                                           \* {0} {+s1.}: not ranges
-  P(<<"PLUS", "q">>), P(<<"s", "n">>)                                                   \* {+q} {sn}: not placeholders
+  P(<<"PLUS", "q">>), P(<<"s", "n">>),                                                  \* {+q} {sn}: not placeholders
+  (* 32.. : file placeholders and the {q:N} family (MC_ShellExpand_files*.cfg) *)
+  P(<<"f">>), P(<<"PLUS", "f">>), P(<<"PLUS", "f", "2">>), P(<<"s", "f", "2", "DOT", "DOT">>),   \* {f} {+f} {+f2} {sf2..}
+  P(<<"f", "n">>), P(<<"PLUS", "n", "f">>),                                              \* {fn} {+nf}
+  <<"BSL">> \o P(<<"f">>), <<"DQ">> \o P(<<"PLUS", "f">>) \o <<"DQ">>,                    \* \{f}  "{+f}"
+  P(<<"q", "COLON", "2">>), P(<<"q", "COLON", "2", "DOT", "DOT">>),                      \* {q:2} {q:2..}
+  P(<<"q", "COLON", "s", "1">>), P(<<"q", "COLON", "MINUS", "1">>),                      \* {q:s1} {q:-1}
+  P(<<"PLUS", "2">>), P(<<"3">>)                                                         \* {+2} {3}
 >>
 
-VARIABLES tmpl, ntok, world, cur, sel, query, fp
-vars == <<tmpl, ntok, world, cur, sel, query, fp>>
+VARIABLES tmpl, ntok, world, cur, sel, query, fp,
+          delim, sep     \* options: chosen when fzf starts, never changed
+vars == <<tmpl, ntok, world, cur, sel, query, fp, delim, sep>>
 
-St == [items |-> SubSeq(Worlds[world], 1, NItems), cur |-> cur, sel |-> sel, query |-> query, fp |-> fp]
+St == [items |-> SubSeq(Worlds[world], 1, NItems), cur |-> cur, sel |-> sel, query |-> query, fp |-> fp,
+       delim |-> DelimMenu[delim], sep |-> sep]
 
 Init == /\ tmpl = <<>> /\ ntok = 0 /\ world \in WorldIds
         /\ cur = 0 /\ sel = <<>> /\ query = <<>> /\ fp = FALSE
+        /\ delim \in DelimIds /\ sep \in SepSet
 (* the user writes the template *)
 AddToken(k) == /\ ntok < MaxTokens /\ ntok' = ntok + 1 /\ tmpl' = tmpl \o Tokens[k]
-               /\ UNCHANGED <<world, cur, sel, query, fp>>
+               /\ UNCHANGED <<world, cur, sel, query, fp, delim, sep>>
 (* toggle: a newly selected line goes to the end of the selection order *)
 Toggle(i) == /\ sel' = IF \E j \in 1..Len(sel) : sel[j] = i THEN SelectSeq(sel, LAMBDA x : x # i) ELSE Append(sel, i)
-             /\ UNCHANGED <<tmpl, ntok, world, cur, query, fp>>
+             /\ UNCHANGED <<tmpl, ntok, world, cur, query, fp, delim, sep>>
 (* the cursor moves; 0 = the query filtered every line away *)
-Move(c) == cur' = c /\ c # cur /\ UNCHANGED <<tmpl, ntok, world, sel, query, fp>>
-SetQuery(q) == query' = q /\ q # query /\ UNCHANGED <<tmpl, ntok, world, cur, sel, fp>>
+Move(c) == cur' = c /\ c # cur /\ UNCHANGED <<tmpl, ntok, world, sel, query, fp, delim, sep>>
+SetQuery(q) == query' = q /\ q # query /\ UNCHANGED <<tmpl, ntok, world, cur, sel, fp, delim, sep>>
 (* the template is run by an action that forces {+} semantics (execute-multi) or not *)
-SetForcePlus == fp' = ~fp /\ UNCHANGED <<tmpl, ntok, world, cur, sel, query>>
+SetForcePlus == fp' = ~fp /\ UNCHANGED <<tmpl, ntok, world, cur, sel, query, delim, sep>>
 
-Next == \/ \E k \in 1..Len(Tokens) : AddToken(k)
+Next == \/ \E k \in TokenIds : AddToken(k)
         \/ \E i \in 1..NItems : Toggle(i)
         \/ \E c \in 0..NItems : Move(c)
         \/ \E q \in Queries : SetQuery(q)
@@ -73,6 +101,25 @@ InvOrdinals ==
 (* whatever is selected or typed never changes the number of words of a well-formed command line except through {+} *)
 InvNeverHazard == WantI(TI, St).status = "OK" => ShEval(ExpandI(TI, St, Quote)).status = "OK"
 
+(* files: every record terminated (FzfShell 5b); joining and patching the end is not the same thing *)
+ASSUME FilesByJoinLoseRecords
+InvFilesReadBack == FilesReadBackI(TI, St)
+(* {+f} holds the selected lines in selection order, the current line if nothing is selected, one record each *)
+PlusF == P(<<"PLUS", "f">>)
+InvPlusFileCoversSelection ==
+    Valid(PlusF, St) => /\ Expand(PlusF, St) = <<"FILE">>
+                        /\ Files(PlusF, St) = <<TerminateEach(IF sel # <<>> THEN [i \in 1..Len(sel) |-> St.items[sel[i]].text]
+                                                               ELSE <<St.items[cur].text>>, sep)>>
+(* the words of the query do not depend on the item delimiter; without --delimiter fields and words are cut alike *)
+QPhs == <<ParseBody(<<"q", "COLON", "1">>), ParseBody(<<"q", "COLON", "2", "DOT", "DOT">>),
+          ParseBody(<<"q", "COLON", "s", "MINUS", "1">>)>>
+InvQueryWordsIgnoreDelimiter ==
+    \A k \in 1..Len(QPhs) : Meaning(QPhs[k], TI, St) = Meaning(QPhs[k], TI, [St EXCEPT !.delim = AwkDelim])
+InvAwkFieldsAgree == \A k \in 1..Len(QPhs) : AwkFieldsAgree(query, QPhs[k].rng, QPhs[k].preserve)
+(* under a delimiter that occurs in the query the two DO differ somewhere: the distinction is not vacuous *)
+ASSUME LET q == QueryMenu[4] r == ParseRange(<<"1">>)
+       IN FieldText(q, r, FALSE) # ItemFieldText(q, r, FALSE, StrDelim(<<"COLON">>))
+
 (* ---- case export ---- *)
 Emit == LET ti == TInfo(tmpl)
             v  == ValidI(ti, St)
@@ -81,6 +128,8 @@ Emit == LET ti == TInfo(tmpl)
         IN PrintT(<<"CASE", ToJson([
              t |-> Enc(tmpl), its |-> [i \in 1..NItems |-> Enc(St.items[i].text)], ix |-> [i \in 1..NItems |-> St.items[i].idx],
              cur |-> cur, sel |-> sel, q |-> Enc(query), fp |-> fp,
+             d |-> [kind |-> St.delim.kind, pat |-> Enc(St.delim.pat)], sep |-> sep,
+             fs |-> IF v THEN EncAll(FilesI(ti, St)) ELSE <<>>,
              valid |-> v, x |-> Enc(x), xf |-> IF v THEN Enc(ExpandI(ti, St, QuoteFish)) ELSE "",
              ws |-> r.status, w |-> EncAll(r.words), want |-> WantI(ti, St).status])>>)
 ================================================================================
